@@ -318,7 +318,11 @@ def do_derived_case(ctx, inp):
         if want is None:
             continue
         n += 1
-        got = o.evaluate(dict(sigma)).constant
+        try:
+            got = o.evaluate(dict(sigma)).constant
+        except Exception as e:
+            ctx.fail("evaluate-raised-on-a-total-assignment", {"via": a["via"], "sigma": sigma, "exception": f"{type(e).__name__}: {str(e)[:160]}", "model": t})
+            return
         if got is None or int(got) != want:
             ctx.fail("connective-over-derived-argument-has-another-truth-function",
                      {"via": a["via"], "sigma": sigma, "evaluate": None if got is None else int(got), "truth_function_of_the_argument": want, "model": t})
